@@ -485,17 +485,19 @@ class set:
         path = path + (key,)
 
         if len(keys) == 1:
-            if record:
-                if key in d:
-                    self._record.append(("replace", path, d[key]))
-                else:
-                    self._record.append(("insert", path, None))
+            if key in d:
+                op = ("replace", path, d[key])
+            else:
+                op = ("insert", path, None)
             d[key] = value
+            # Only record what actually happened: the store above may raise
+            if record:
+                self._record.append(op)
         else:
             if key not in d:
+                d[key] = {}
                 if record:
                     self._record.append(("insert", path, None))
-                d[key] = {}
                 # No need to record subsequent operations after an insert
                 record = False
             self._assign(keys[1:], value, d[key], path, record=record)
